@@ -342,6 +342,19 @@ Lemma tr_ok_ld_cstr p : tr_ok (ld_cstr p). Proof. unfold ld_cstr. tr_auto. Qed.
 Lemma tr_ok_type_is p k : tr_ok (type_is p k). Proof. unfold type_is. tr_auto. Qed.
 Global Hint Resolve tr_ok_ld_cstr tr_ok_type_is : tr.
 
+Lemma accesses_tr_ok :
+  (∀ p, tr_ok (chk p)) ∧ (∀ p, tr_ok (ld_lnk p)) ∧ (∀ p, tr_ok (ld_dat p)) ∧
+  (∀ p, tr_ok (ld_str p)) ∧ (∀ p, tr_ok (ld_cstr p)) ∧
+  (∀ p l, tr_ok (st_lnk p l)) ∧ (∀ p d, tr_ok (st_dat p d)) ∧ (∀ p s, tr_ok (st_str p s)) ∧
+  (∀ p, tr_ok (get_next p)) ∧ (∀ p, tr_ok (get_prev p)) ∧ (∀ p, tr_ok (get_child p)) ∧
+  (∀ p, tr_ok (get_type p)) ∧ (∀ p, tr_ok (get_vstr p)) ∧ (∀ p, tr_ok (get_key p)) ∧
+  (∀ p, tr_ok (get_vint p)) ∧ (∀ p, tr_ok (get_vdbl p)) ∧
+  (∀ p v, tr_ok (set_next p v)) ∧ (∀ p v, tr_ok (set_prev p v)) ∧ (∀ p v, tr_ok (set_child p v)) ∧
+  (∀ p v, tr_ok (set_type p v)) ∧ (∀ p v, tr_ok (set_vstr p v)) ∧ (∀ p v, tr_ok (set_key p v)) ∧
+  (∀ p v, tr_ok (set_vint p v)) ∧ (∀ p v, tr_ok (set_vdbl p v)) ∧
+  tr_ok heap_fuel ∧ tr_ok get_heap.
+Proof. repeat lazymatch goal with |- _ ∧ _ => split end; intros; auto 1 with tr nocore. Qed.
+
 (** * consequences of a step for single events (clause (iii) spelled out) *)
 
 (** the events added by a step *)
@@ -385,4 +398,47 @@ Proof.
       * rewrite freed_app in Hnf. intros Hx. apply Hnf. apply elem_of_app. auto.
       * apply IH; auto.
     + apply IH; auto.
+Qed.
+
+(** * what [tr_wf] means for one identity *)
+
+(** no identity is allocated twice or released twice, and only allocated identities are released *)
+Lemma tr_wf_NoDup tr : tr_wf tr → base.NoDup (allocated tr) ∧ base.NoDup (freed tr) ∧ (∀ id, id ∈ freed tr → id ∈ allocated tr).
+Proof.
+  intros W. split; [|split; [|intros id; apply freed_allocated; exact W]].
+  - induction tr as [|[i v|i v|v] tr IH]; cbn in *.
+    + constructor.
+    + destruct W as [H1 H2]. constructor; [exact H1|apply IH; exact H2].
+    + destruct W as (_ & _ & H2). apply IH; exact H2.
+    + apply IH; exact W.
+  - induction tr as [|[i v|i v|v] tr IH]; cbn in *.
+    + constructor.
+    + destruct W as [_ H2]. apply IH; exact H2.
+    + destruct W as (_ & H1 & H2). constructor; [exact H1|apply IH; exact H2].
+    + apply IH; exact W.
+Qed.
+
+(** the release comes after the allocation: at a release event, the past (the tail of the
+    newest-first trace) contains the allocation of that identity and no release of it *)
+Lemma tr_wf_free_after_alloc a id v b :
+  tr_wf (a ++ EvFree id v :: b) → id ∈ allocated b ∧ id ∉ freed b ∧ id ∉ allocated a ∧ id ∉ freed a.
+Proof.
+  intros W. pose proof (tr_wf_app _ _ W) as Wb. cbn in Wb. destruct Wb as (Ha & Hf & Wb).
+  split; [exact Ha|]. split; [exact Hf|].
+  destruct (tr_wf_NoDup _ W) as (ND1 & ND2 & _).
+  rewrite allocated_app in ND1. rewrite freed_app in ND2. cbn in ND1, ND2.
+  apply NoDup_app in ND1 as (_ & D1 & _). apply NoDup_app in ND2 as (_ & D2 & _).
+  split.
+  - intros Hin. apply (D1 _ Hin). exact Ha.
+  - intros Hin. apply (D2 _ Hin). apply elem_of_cons. auto.
+Qed.
+(** an allocation event returns an identity that occurs nowhere in the past *)
+Lemma tr_wf_alloc_first a id v b :
+  tr_wf (a ++ EvAlloc id v :: b) → id ∉ allocated b ∧ id ∉ freed b ∧ id ∉ allocated a.
+Proof.
+  intros W. pose proof (tr_wf_app _ _ W) as Wb. cbn in Wb. destruct Wb as (Ha & Wb).
+  split; [exact Ha|]. split; [intros Hf; apply Ha; eapply freed_allocated; eauto|].
+  destruct (tr_wf_NoDup _ W) as (ND1 & _ & _).
+  rewrite allocated_app in ND1. cbn in ND1. apply NoDup_app in ND1 as (_ & D1 & _).
+  intros Hin. apply (D1 _ Hin). apply elem_of_cons. auto.
 Qed.
